@@ -441,10 +441,15 @@ type Program struct {
 	Final  string   `json:"final"`
 }
 
-// Measure runs rq cleanly on a copy of base and returns its program.
-func Measure(base *Env, worker string, rq Req) (Program, error) {
+// Measure runs rq cleanly on a copy of base and returns its program. A fresh stack checks once per ledger
+// that the bucket is up to date (cached afterwards): warm = true performs that first access before the
+// measurement, so that the program is the one of an environment that has already served a request.
+func Measure(base *Env, worker string, rq Req, warm ...bool) (Program, error) {
 	f := base.Fork()
 	defer f.Close()
+	if len(warm) > 0 && warm[0] {
+		f.St.Do(nil, "warm", "GET", "/v2/"+rq.L+"/stats", nil, nil)
+	}
 	before, err := f.Snapshot()
 	if err != nil {
 		return Program{}, err
